@@ -169,6 +169,9 @@ impl Vm {
                 Err(err) => return Err(ExecError(self.pc, err)),
             };
 
+            #[cfg(essential_base_verif)]
+            crate::verif::on_step(self);
+
             // Update the program counter.
             match update {
                 Some(ProgramControlFlow::Pc(new_pc)) => self.pc = new_pc,
